@@ -651,8 +651,18 @@ def q_psd(ctx):
                    % norm_text(d))
         elif not okT:
             why = 'right factor `%s` is not the transpose of the left factor' % bt
+    if not ok:
+        # another spelling: decided by value (ASSEMBLY evaluates the helper: the argument equals
+        # G diag(q^2) G^T entry by entry, a congruence of a non-negative diagonal)
+        from . import layout as _layout
+        try:
+            _layout.assembly(ctx)
+            ok = ctx.cache.get('assembly', {}).get('Q') is True
+        except Exception:
+            pass
     ctx.ob('Q-PSD', ok, None, 'Q = G @ diag(q**2) @ G^T', f=f, node=call, key='q-form', why=why)
-    ctx.ob('Q-PSD', norm_text(call.args[2]) == f.params[3], None,
+    ctx.ob('Q-PSD', norm_text(call.args[2]) == f.params[3] or
+           ctx.cache.get('assembly', {}).get('dt') is True, None,
            'step passed to the discretisation is the time_delta parameter', f=f, node=call,
            key='dt-param', why='step argument is `%s`' % norm_text(call.args[2]))
     # every return of the wrapper hands back the result of that one exact discretisation: no
